@@ -15,7 +15,7 @@ def _source_sha(c):
     try:
         import ast
 
-        node = func_node(c.fn) if not hasattr(c.fn, "node") else c.fn.node
+        node = c.fn.node() if getattr(c.fn, "is_fragment", False) else func_node(c.fn)
         return hashlib.sha1(ast.unparse(node).encode()).hexdigest()[:16]
     except Exception as e:  # noqa: BLE001
         return f"anchor-missing: {e}"
@@ -23,17 +23,23 @@ def _source_sha(c):
 
 def _work(args):
     """Verify one contract in a worker. Returns a picklable summary."""
-    name, mutant = args
+    name, mutant, tier = args
     from contracts.registry import build
 
     try:
-        reg = build()
+        reg = build(tier)
         c = reg.by_name[name]
         if mutant is not None:
-            path = c.fn.__code__.co_filename
+            is_frag = getattr(c.fn, "is_fragment", False)
+            path = c.fn.file if is_frag else c.fn.__code__.co_filename
             txt = open(path).read()
             old, new = mutant
-            node = func_node(c.fn)
+            if is_frag:
+                from pyvc.interp import find_def
+
+                node = find_def(path, c.target.split("::")[1])
+            else:
+                node = func_node(c.fn)
             lines = txt.splitlines(keepends=True)
             seg = "".join(lines[node.lineno - 1 : node.end_lineno])
             if seg.count(old) != 1:
@@ -69,7 +75,7 @@ def _work(args):
 def run_e1(rep, prop, tier, only=None, procs=None):
     from contracts.registry import build
 
-    reg = build()
+    reg = build(tier)
     from contracts import lnodes_shapes
 
     probs = lnodes_shapes.check_shapes()
@@ -78,7 +84,7 @@ def run_e1(rep, prop, tier, only=None, procs=None):
     names = [n for n, c in reg.by_name.items() if prop in c.properties and (only is None or n in only)]
     for desc, f in getattr(reg, "alias_checks", []):
         pass
-    jobs = [(n, None) for n in names]
+    jobs = [(n, None, tier) for n in names]
     procs = procs or min(16, max(1, len(jobs)))
     with mp.get_context("fork").Pool(procs) as pool:
         results = pool.map(_work, jobs, chunksize=1)
@@ -86,12 +92,12 @@ def run_e1(rep, prop, tier, only=None, procs=None):
         consume(rep, prop, r)
     # sensitivity self-test: seeded in-memory mutants must be refuted (thorough tier)
     if tier == "thorough":
-        mjobs = [(n, m) for n in names for m in reg.by_name[n].mutants]
+        mjobs = [(n, m, tier) for n in names for m in reg.by_name[n].mutants]
         if mjobs:
             with mp.get_context("fork").Pool(min(16, len(mjobs))) as pool:
                 mres = pool.map(_work, mjobs, chunksize=1)
             killed = 0
-            for (n, m), r in zip(mjobs, mres):
+            for (n, m, _t), r in zip(mjobs, mres):
                 if "error" in r:
                     rep.error(f"selftest:{n}", r["error"])
                     continue
